@@ -18,6 +18,8 @@ from core.absexec import AbsExec, Adt, Tup, Ref, TOP, Frame, deref_value, store_
 from rules.mono import MonoDomain, TOWER, FP, OPS, _leaves
 
 
+RULE_BUDGET_S = 60     # wall-clock budget of the whole rule on one tree (seconds; it needs 1-6 s on the pinned tree); functions reached after it are not judged
+RULE_DEADLINE = [None]
 RUN_BUDGET_S = 12      # wall-clock budget of one abstract run; beyond it the function is not judged (never a verdict)
 
 
@@ -140,7 +142,9 @@ def run_paths(F, b, operands, atom_ty=None):
             args.append(v)
     from core import absexec as _ax
     import time as _t
-    _ax.WALL_DEADLINE = _t.time() + RUN_BUDGET_S
+    if RULE_DEADLINE[0] is not None and _t.time() > RULE_DEADLINE[0]:
+        raise FactsError("rule wall-clock budget exceeded")
+    _ax.WALL_DEADLINE = min(_t.time() + RUN_BUDGET_S, RULE_DEADLINE[0] or float("inf"))
     try:
         rs = ex.run(b, args)
     finally:
@@ -220,6 +224,8 @@ def compare_supports(F, b, ty, ins, names, atom_ty):
 
 def rule_shortcut_supports(prop, repo, types):
     F = repo.F
+    import time as _tt
+    RULE_DEADLINE[0] = _tt.time() + RULE_BUDGET_S
     R = Rule("R-SHORTCUT-SUPPORT", "a fast path of a tower inverse / squaring / multiplication reads every operand component that the function's own general formula "
              "still depends on under the fast path's guard (support domain: a value is 0 or the set of components it may depend on; union over the result)",
              floor=3, exhaustive=True)
